@@ -70,6 +70,10 @@ CHECKS = {
          'Differential test of the compact codec and CheckProofOfWork against a transcription of Core arith_uint256 over the complete '
          'exponent x boundary-mantissa grid, every bit length 0..256, boundary hashes on all four chains, plus random triples.',
          TRUST),
+ 'C18': ('fault_enumeration', 'Hypothesis-generated messages / multi-frame streams vs reference frame and payload encoders written from the protocol documentation; enumeration of every header-byte corruption, every truncation point and a length-field fault set per frame',
+         'Byte-exact framing and payload layout for all 17 message types on all four chains, field-exact parse and byte-identical re-framing, exact '
+         'stream consumption over 1..6 concatenated frames, parse of older version-message layouts; every magic / checksum / payload / length / '
+         'truncation fault must raise (truncation => SerializationTruncationError, un-honourable length => no read beyond the header) and never return a message.', TRUST),
  'C20': ('exploration', 'Hypothesis stateful testing (insert / query / round-trip histories) against a bit-set model built on a reference MurmurHash3; enumeration of hash lengths and cap boundaries',
          'After every step of every history the filter bytes must equal the model bit array given by the BIP37 schedule and contains() must equal '
          'model membership (no false negatives, exact false-positive set); caps, wire layout and round trip; filters arriving from the wire with '
